@@ -31,6 +31,8 @@ const (
 	momentaryRetry = 100 * time.Millisecond
 	// virtual time between two steps of a history
 	stepGap = 2 * time.Millisecond
+	// transport.ctrlTimeout: the write deadline Close() of a network peer sets
+	peerCloseBound = 5 * time.Second
 )
 
 // Failure is one oracle verdict.
